@@ -442,21 +442,20 @@ class Formatter:
         """
         definition_name = self.format_definition_name_inner_proto(d, class_)
 
-        parent = d.scope_stack[-1]
-
-        if not isinstance(parent, Proto):
-            # Member of Non-Proto scopes: message, enum etc.
+        if isinstance(d, (EnumField, MessageField)):
+            # Members are referenced through their owner (an enum or a message).
             return definition_name
 
         if not self.support_import_as_member():
             return definition_name
 
-        if not parent.scope_stack:
-            # `parent` is the top proto.
+        protos = [scope for scope in d.scope_stack if isinstance(scope, Proto)]
+        if len(protos) <= 1:
+            # Declared (maybe nested in a message) in the top proto.
             return definition_name
-        # `parent` is imported in another proto.
+        # Declared (maybe nested in a message) in a proto imported in another proto.
         return self.delimer_cross_proto().join(
-            [self._get_definition_name(parent), definition_name]
+            [self._get_definition_name(protos[-1]), definition_name]
         )
 
     @final
